@@ -4,7 +4,7 @@ from __future__ import annotations
 import numpy as np
 
 from .. import ops, state
-from ..common import hx, key_family, rand_key, run_cases, sk, unhx
+from ..common import pick, hx, key_family, rand_key, run_cases, sk, unhx
 
 ID = "C12"
 LEVEL = "exploration"
@@ -30,13 +30,13 @@ def gen_cfg(rng):
         return {"kind": kind, "width": int(rng.integers(1, 5)), "depth": int(rng.integers(1, 5))}
     if kind == "log16":
         return {"kind": kind, "width": int(rng.integers(1, 5)), "depth": int(rng.integers(1, 4)),
-                "max_count": int(rng.choice([70000, 10**6, 2**32 - 1])), "num_reserved": int(rng.choice([0, 3, 40, 1023]))}
+                "max_count": pick(rng, [70000, 10**6, 2**32 - 1]), "num_reserved": pick(rng, [0, 3, 40, 1023])}
     if kind == "log8":
         return {"kind": kind, "width": int(rng.integers(1, 5)), "depth": int(rng.integers(1, 4)),
-                "max_count": int(rng.choice([300, 5000, 10**6, 2**32 - 1])), "num_reserved": int(rng.choice([0, 2, 15, 60]))}
+                "max_count": pick(rng, [300, 5000, 10**6, 2**32 - 1]), "num_reserved": pick(rng, [0, 2, 15, 60])}
     if kind == "hh":
         return {"kind": kind, "width": int(rng.integers(1, 4)), "depth": int(rng.integers(1, 4)), "max_key_len": int(rng.integers(1, 9))}
-    return {"kind": kind, "p": int(rng.integers(7, 10)), "seed": int(rng.choice([0, 1, 2**63 + 11]))}
+    return {"kind": kind, "p": int(rng.integers(7, 10)), "seed": pick(rng, [0, 1, 2**63 + 11])}
 
 
 def gen_case(rng, ctx):
